@@ -73,7 +73,7 @@ type cmpCtx struct {
 func wordsOf(s string) string { return strings.Join(asciiFields(s), " ") }
 
 // normKids: comments dropped, adjacent text merged; non-verbatim text reduced to its words.
-func normKids(n *html.Node, verbatim bool) []item {
+func normKids(n *html.Node, verbatim bool, reg string, o Options) []item {
 	var out []item
 	var txt strings.Builder
 	has := false
@@ -98,7 +98,7 @@ func normKids(n *html.Node, verbatim bool) []item {
 			txt.WriteString(c.Data)
 			has = true
 		case html.ElementNode:
-			if droppableEmpty(c) {
+			if droppableEmpty(c, reg, o) {
 				continue
 			}
 			flush()
@@ -231,7 +231,7 @@ func (cc *cmpCtx) skipContent(n *html.Node) bool {
 }
 
 func (cc *cmpCtx) compareKids(a, b *html.Node, path string, verbatim bool) *diff {
-	ka, kb := normKids(a, verbatim), normKids(b, verbatim)
+	ka, kb := normKids(a, verbatim, cc.reg, cc.o), normKids(b, verbatim, cc.reg, cc.o)
 	n := len(ka)
 	if len(kb) < n {
 		n = len(kb)
@@ -373,12 +373,15 @@ func structureSignature(a, b []*html.Node) string {
 	return "structure:order-changed"
 }
 
-func comments(roots []*html.Node) []string {
+func comments(roots []*html.Node, reg string) []string {
 	var out []string
 	var walk func(n *html.Node)
 	walk = func(n *html.Node) {
 		if n.Type == html.CommentNode {
 			out = append(out, n.Data)
+		}
+		if reg != "none" && n.Type == html.ElementNode && n.Namespace != "" {
+			return // rewritten by the svg/mathml minifier
 		}
 		for c := n.FirstChild; c != nil; c = c.NextSibling {
 			walk(c)
@@ -471,6 +474,10 @@ func Judge(c *Case) (v Verdict) {
 		v.Viol = mk("panic", "panic:second-pass", fmt.Sprint(pan2), "no panic", "output: "+out)
 		return
 	}
+	if err2 != nil && c.NoTree && c.Registry == "real" {
+		v.NotJudged = "second-pass-error-on-malformed-input-with-real-sub-minifier"
+		return
+	}
 	if err2 != nil {
 		v.Judged = true
 		v.Viol = mk("oracle", "second-pass-error", err2.Error(), "output re-minifies without error", "output: "+out)
@@ -530,7 +537,7 @@ func Judge(c *Case) (v Verdict) {
 	// content is compared; with the real registry script text is not compared, so look at the next pass too.
 
 	// comments
-	ca, cb := comments(ta), comments(tb)
+	ca, cb := comments(ta, c.Registry), comments(tb, c.Registry)
 	if c.Opts.KeepComments {
 		if strings.Join(ca, "\x00") != strings.Join(cb, "\x00") {
 			fail("keep-comments:comment-lost-or-changed", strings.Join(cb, " | "), strings.Join(ca, " | "), "output: "+out)
